@@ -1,5 +1,6 @@
 // C07 — all memory, descriptors and timers are reclaimed; descriptor use is hygienic.
 #include "../fw/rcmain.hpp"
+extern "C" { void *cjet_malloc(size_t size); void *cjet_calloc(size_t nmemb, size_t size); void cjet_free(void *ptr); }
 using namespace drv;
 using namespace scen;
 
@@ -77,6 +78,30 @@ int main(int argc, char **argv)
 		return conns >= 3 && abnormal && g("timers_created") >= 1;
 	};
 	c.setup = [](World &w) {
+		// "accounted heap never exceeds the configured cap", at the allocator itself: once per scenario (at the first quiescent point)
+		// the heap is filled up to a generated distance from the cap; an array allocation whose total does not fit - although one member
+		// does - must be refused, one that fits must succeed, and the account must never pass the cap
+		w.custom_check = [](World &ww) {
+			if (ww.vd.stat["allocator_exercised"]) return;
+			ww.vd.stat["allocator_exercised"] = 1;
+			size_t cap = ww.heap_cap(), used = cjet_get_alloc_size();
+			uint64_t h = scen::hash(ww.sc);
+			if (ww.sc.variant != "small" && (h >> 40) % 4 != 0) return; // (filling 20 MB costs a few milliseconds: every fourth scenario; always with the 64 KB cap)
+			size_t room = 96 + (size_t)(h % 6000);
+			if (cap < used + room + 4096) return;
+			void *big = cjet_malloc(cap - used - room);
+			if (!big) return;
+			size_t free_now = cap > cjet_get_alloc_size() ? cap - cjet_get_alloc_size() : 0;
+			size_t nmemb = 2 + (size_t)((h >> 16) % 40);
+			size_t size = free_now / nmemb + 1 + (size_t)((h >> 24) % 24); // nmemb * size > free_now >= size
+			void *too_big = cjet_calloc(nmemb, size);
+			if (cjet_get_alloc_size() > cap) ww.vd.add("C07/heap-cap-exceeded", "cjet_calloc(" + std::to_string(nmemb) + ", " + std::to_string(size) + ") with " + std::to_string(free_now) + " bytes left: accounted " + std::to_string(cjet_get_alloc_size()) + " > cap " + std::to_string(cap));
+			else if (too_big) ww.vd.add("C07/heap-cap-exceeded", "cjet_calloc(" + std::to_string(nmemb) + ", " + std::to_string(size) + ") succeeded with only " + std::to_string(free_now) + " bytes left below the cap");
+			if (too_big) cjet_free(too_big);
+			if (free_now >= 256) { size_t fit = (free_now - 64) / nmemb; void *ok = fit ? cjet_calloc(nmemb, fit) : nullptr; if (fit && !ok) ww.vd.add("C07/heap-cap-refuses-too-early", "cjet_calloc(" + std::to_string(nmemb) + ", " + std::to_string(fit) + ") refused with " + std::to_string(free_now) + " bytes left"); if (ok) cjet_free(ok); }
+			cjet_free(big);
+			if (cjet_get_alloc_size() != used) ww.vd.add("C07/heap-not-at-baseline", "allocator exercise: accounted " + std::to_string(cjet_get_alloc_size()) + " vs " + std::to_string(used) + " before");
+		};
 		w.custom_final = [](World &ww) {
 			long n = 0; for (auto &f : simk::K().fds) if (f.kind == simk::K_TIMER) n++;
 			ww.vd.stat["timers_created"] = n;
